@@ -184,9 +184,10 @@ int xcm_tp_socket_receive(struct xcm_socket *s, void *buf, size_t capacity)
     uint32_t off = rb->wire_len;
     CHECK(off == pre.r_len + g_in_len, "C01: stream bytes are buffered contiguously");
     /* deliver W[off .. off+n) (beyond the compared prefix the content is abstract) */
+    /* buf == wire_data + off (checked above): written through wire_data[i] so that the index is a constant after unrolling */
     for (uint32_t i = 0; i < CMPMAX + 4; i++)
-	if (i >= off && i < off + n && i - off < capacity && (char *)buf != NULL)
-	    ((uint8_t *)buf)[i - off] = W[i];
+	if (i >= off && i < off + n && i - off < capacity && (char *)buf != NULL && buf == (void *)(rb->wire_data + off))
+	    ((uint8_t *)rb->wire_data)[i] = W[i];
     g_in_len += n;
     g_recv_result = (int)n;
     return (int)n;
@@ -554,7 +555,7 @@ int main(void)
 		CHECK(rb->wire_len == wlen, "C01: after EAGAIN the partial frame holds exactly the bytes received so far");
 		CHECK(!complete, "C01,C04: EAGAIN is not reported while a complete frame is buffered");
 		CHECK(!(wlen >= 4 && (L == 0 || L > MBUF_MSG_MAX)), "C06,C07: an illegal announced length is reported as EPROTO, not hidden behind EAGAIN");
-		for (uint32_t i = 0; i < CMPMAX + 4; i++)
+		for (uint32_t i = 0; i < CMPMAX; i++)          /* the compared prefix: the whole frame in the content tier, the header in the length tier */
 		    if (i < wlen && i < rb->wire_len)
 			CHECK((uint8_t)rb->wire_data[i] == W[i], "C01: buffered partial frame bytes are the stream bytes in order");
 		WITNESS(g_in_len > 0 && pre.r_len + g_in_len > 4, "EAGAIN after part of the payload arrived");
